@@ -825,3 +825,38 @@ theorem chain_exceeds_budget (hl : c.isLeaf "Ref" = false) (hk : c.hasMark "Ref"
 end chain
 
 end Cello.Heap
+
+/-! ### a Tuple holding a pointer to an object that was deleted by hand (known finding KF-C01-dangling-tuple-item) -/
+
+namespace Cello.Heap
+
+/-- 4096 ↦ heap Tuple [4160]; 4160 was registered once (the bounds still include it) and has been deleted -/
+def danglingHeap : Heap where
+  lookup a := if a = 4096 then some ⟨.tup "Tuple" [4160], false⟩ else none
+  regs := [4096]
+  minptr := 4096
+  maxptr := 4160
+  complete := by
+    intro a e he
+    by_cases h1 : a = 4096
+    · simp [h1]
+    · simp [h1] at he
+
+theorem danglingHeap_wf : danglingHeap.WF := by
+  constructor <;> intro a e he <;> simp only [danglingHeap] at he ⊢ <;> split at he <;> first | (cases he) | skip
+  · rename_i hc; subst hc; decide
+  · rename_i hc; subst hc; decide
+
+theorem dangling_ub {σ : Type} (S : MarkSet σ) (c : Cfg) (hl : c.isLeaf "Tuple" = false)
+    (hk : c.hasMark "Tuple" = true) (hg : c.guarded = true) (d : Nat) :
+    (level S c danglingHeap (d + 2)).item 4096 S.empty = .ub := by
+  rw [level_item_succ]
+  have hlook : danglingHeap.lookup 4096 = some ⟨.tup "Tuple" [4160], false⟩ := rfl
+  have hlook2 : danglingHeap.lookup 4160 = none := rfl
+  have hchk : ((4096 : Nat) % 8 == 0 && decide (danglingHeap.minptr ≤ 4096) && decide (4096 ≤ danglingHeap.maxptr)) = true := by decide
+  simp only [hchk, if_true, hlook, S.mem_empty]
+  rw [level_recurse_succ]
+  simp only [Obj.ty, hl, hk, if_true, markInst, foldRes, callback, hg, hlook2]
+  rfl
+
+end Cello.Heap
